@@ -64,6 +64,8 @@ def cases(draw, family=None):
     c["arg"] = draw(st.sampled_from(["own_reporting", "own_reporting", "own_baseline", "foreign", "other_tz", "unfitted"]))
     c["rep"] = draw(zoo.reporting(b))
     c["other_tz_i"] = draw(st.integers(0, 3))
+    # whole-number temperatures / usage delivered with an integer dtype (well formed; not a sufficiency defect)
+    c["int_dtype"] = draw(st.sampled_from([None, None, None, None, "temperature", "both"]))
     return c
 
 
@@ -105,6 +107,10 @@ def defective_frame(c):
         df.iloc[10 * per, df.columns.get_loc("observed")] = -5.0
     if "poor" in d:
         df["observed"] = np.abs(rng.standard_cauchy(n)) * 5 + 0.01
+    if c.get("int_dtype"):
+        for col in (("temperature",) if c["int_dtype"] == "temperature" else ("temperature", "observed")):
+            if col in df.columns and np.isfinite(df[col].values.astype(float)).all() and fam != "billing":
+                df[col] = np.round(df[col].values.astype(float) * (1 if col == "temperature" else 10)).astype("int64")
     return df, b
 
 
@@ -120,7 +126,7 @@ def judge(c, rec):
     if "neg_gas" in c["defects"]:
         b["electric"] = False
     Base, Rep = zoo.data_classes(fam)
-    cls = ["family=" + fam, "profile=" + b0["profile"], "arg=" + c["arg"], "stored=%d" % c["stored"], "ign_fit=%d" % c["ign_fit"],
+    cls = ["family=" + fam, "profile=" + b0["profile"], "arg=" + c["arg"], "stored=%d" % c["stored"], "ign_fit=%d" % c["ign_fit"], "int-dtype=%d" % bool(c.get("int_dtype")),
            "ign_pred=%d" % c["ign_pred"]] + ["defect=" + x for x in (c["defects"] or ["none"])]
     with contextlib.redirect_stdout(io.StringIO()):
         data = Base(df.copy(), is_electricity_data=b["electric"])
